@@ -131,9 +131,14 @@ def enum_pool(ctx, name, maxlen, workers=4):
     return res.records
 
 
-def enum_member(ctx, maxa, maxb, workers=4):
-    cols = [[0, 1], [1, 0], [1, 1], [0, 2]]
-    m, cf = tlc.gen(ctx.work / "enum_member", "MC_SetMemberEnum", "SetMemberEnum",
+# column sets of the enumerated membership / intersection inputs: non-negative entries (permuted twins, a column that
+# is a twin only after sorting) and entries of both signs (columns that differ in sign / order only)
+MEMBER_COLS = {"pos": [[0, 1], [1, 0], [1, 1], [0, 2]], "neg": [[-2, 3], [-1, -1], [0, -1], [-1, 3]]}
+
+
+def enum_member(ctx, which, maxa, maxb, workers=4):
+    cols = MEMBER_COLS[which]
+    m, cf = tlc.gen(ctx.work / f"enum_member_{which}", "MC_SetMemberEnum", "SetMemberEnum",
                     dict(Cols=tlc.Raw("{" + ", ".join(tlc.tla(c) for c in cols) + "}"), MaxA=maxa, MaxB=maxb, TolN=3, TolD=2),
                     invariants=["Laws", "Emit"])
     res = ctx.tlc(m, cf, workers=workers, allow_violation=False)
@@ -180,9 +185,9 @@ def random_member(rng, n_inputs):
     for _ in range(n_inputs):
         nd = rng.choice([1, 2, 3])
         na, nb = rng.randint(0, 7), rng.randint(0, 7)
-        hi = rng.choice([1, 2, 3])
-        out.append(dict(nd=nd, a=[[rng.randint(0, hi) for _ in range(nd)] for _ in range(na)],
-                        b=[[rng.randint(0, hi) for _ in range(nd)] for _ in range(nb)]))
+        lo, hi = rng.choice([(0, 1), (0, 2), (0, 3), (-3, 3), (-5, -1), (-2, 1)])  # ranges with negative entries too
+        out.append(dict(nd=nd, a=[[rng.randint(lo, hi) for _ in range(nd)] for _ in range(na)],
+                        b=[[rng.randint(lo, hi) for _ in range(nd)] for _ in range(nb)]))
     return out
 
 
@@ -204,9 +209,9 @@ def m_cases(a, b, nd):
         r = run_ismember(a, b, nd, sort, False)
         out.append(dict(fn="ismember", var=f"sort={sort}", nd=nd, **{"in": dict(a=a, b=b, sort=sort)}, out=r["out"],
                         raised=r["raised"]))
-    # 1-d arrays: every column is coded as one integer (base 4)
-    a1 = [[sum(x * 4 ** k for k, x in enumerate(c))] for c in a]
-    b1 = [[sum(x * 4 ** k for k, x in enumerate(c))] for c in b]
+    # 1-d arrays: every column is coded as one integer (balanced base 16: injective for |entries| <= 7)
+    a1 = [[sum(x * 16 ** k for k, x in enumerate(c))] for c in a]
+    b1 = [[sum(x * 16 ** k for k, x in enumerate(c))] for c in b]
     r = run_ismember(a1, b1, 1, True, True)
     out.append(dict(fn="ismember", var="1d", nd=1, **{"in": dict(a=a1, b=b1, sort=False)}, out=r["out"],
                     raised=r["raised"]))
@@ -271,8 +276,9 @@ def run(ctx):
     ctx.rule = ("uniquify_point_set / fracs.utils.uniquify_points: every sequence of <= L points over pools of "
                 "well-separated clusters with close norms (TLC-enumerated; 1-D, 2-D, 3-D on and off the axes) and seeded "
                 "random cluster sets, realised in floats by three embeddings; ismember_columns (sorted / unsorted / 1-d) "
-                "and intersect_sets (exact / three tolerances): every pair of column sequences over 4 columns "
-                "(TLC-enumerated) and seeded random integer column sets; TLC judges every returned tuple; "
+                "and intersect_sets (exact / three tolerances): every pair of column sequences over two sets of 4 columns "
+                "(non-negative entries; entries of both signs; TLC-enumerated) and seeded random integer column sets "
+                "(ranges with negative entries included); TLC judges every returned tuple; "
                 "non-trivial classes = (function, embedding/variant, dimension, #points, #clusters or #members)")
     ctx.assumptions = ["well-separated clusters only: diameter <= tol/5, distance >= 10 tol (checked by TLC per input)",
                        "inexact embeddings (1e-3 scale, rotation) are not used for inputs with two norms exactly tol "
@@ -280,11 +286,11 @@ def run(ctx):
     plan = [("P3", 4), ("P2", 3)] if q else [("P3", 6), ("P2", 5), ("P1", 5), ("P3o", 5)]
     with ThreadPoolExecutor(6) as pool:
         fe = {n: pool.submit(enum_pool, ctx, n, L, 4 if q else 6) for n, L in plan}
-        fm = pool.submit(enum_member, ctx, 2 if q else 3, 2)
+        fm = [pool.submit(enum_member, ctx, w, 2 if q else 3, 2, 2) for w in ("pos", "neg")]
         rc = classify(ctx, "cls", random_clusters(rng, 250 if q else 4000))
         # (TLC prints in worker order: sort, so that the seeded choices below are reproducible)
         pools = {n: sorted(f.result(), key=lambda r: (len(r["ix"]), r["ix"])) for n, f in fe.items()}
-        pairs = sorted(fm.result(), key=lambda r: (len(r["a"]), len(r["b"]), r["a"], r["b"]))
+        pairs = sorted([r for f in fm for r in f.result()], key=lambda r: (len(r["a"]), len(r["b"]), r["a"], r["b"]))
     cases = []
     # --- uniquification
     for name, recs in pools.items():
@@ -307,7 +313,7 @@ def run(ctx):
     # --- membership / intersection
     for r in pairs:
         cases += m_cases(r["a"], r["b"], 2)
-    for i in random_member(rng, 150 if q else 3000):
+    for i in random_member(rng, 250 if q else 4000):
         cases += m_cases(i["a"], i["b"], i["nd"])
     for c in cases:
         if c["fn"] in ("uniquify", "uniquify_points"):
